@@ -123,6 +123,11 @@ DestFn(R) ==
 
 Proj(s) == [i \in DOMAIN s |-> [path |-> s[i].path, code |-> s[i].code, ty |-> s[i].ty]]
 
+RECURSIVE MsgOwners(_)
+MsgOwners(node) == {<<node.tests[i].code, node.tests[i].msg>> : i \in {j \in DOMAIN node.tests : "msg" \in DOMAIN node.tests[j] /\ node.tests[j].msg # ""}}
+                   \cup UNION {MsgOwners(node.kids[i].node) : i \in DOMAIN node.kids}
+\* the messages single tests of this schema carry (each is unique to its test)
+TestMsgs(node) == {o[2] : o \in MsgOwners(node)}
 RECURSIVE HasMutPT(_)
 HasMutPT(node) == (\E i \in DOMAIN node.pts : node.pts[i] = "mut") \/ (node.k = "pre" /\ node.ty = "mut") \/ (\E i \in DOMAIN node.kids : HasMutPT(node.kids[i].node))
 NoPath(s) == [i \in DOMAIN s |-> [code |-> s[i].code, ty |-> s[i].ty]]
@@ -232,6 +237,9 @@ RetVerdicts(R, c, lineNo, tag) ==
          v |-> mk("C11", "issue-type", [got |-> ri, want |-> ref])],
         [bad |-> ok /\ \E k \in DOMAIN R.issues : R.issues[k].msg = "" \/ R.issues[k].ph,
          v |-> mk("C11", "empty-or-unresolved-message", R.issues)],
+        \* C17: a Message option shows only on issues of the test it was passed to
+        [bad |-> ok /\ \E k \in DOMAIN R.issues : R.issues[k].msg \in TestMsgs(c.schema) /\ <<R.issues[k].code, R.issues[k].msg>> \notin MsgOwners(c.schema),
+         v |-> mk("C17", "message-on-foreign-issue", {<<R.issues[k].path, R.issues[k].code, R.issues[k].msg>> : k \in {j \in DOMAIN R.issues : R.issues[j].msg \in TestMsgs(c.schema) /\ <<R.issues[j].code, R.issues[j].msg>> \notin MsgOwners(c.schema)}})],
         [bad |-> ok /\ tag = "c17" /\ BagOf(C17Got(R)) # BagOf(C17Want(c)),
          v |-> mk("C17", "code-or-message", [got |-> C17Got(R), want |-> C17Want(c)])],
         [bad |-> ok /\ tag \in {"c17", "c17s"} /\ (BagOf(NonPT(ri)) # BagOf(ref) \/ (R.issues = <<>> /\ rd # refd)),
